@@ -93,16 +93,7 @@ def specView (cx : ACtx) (env : Env) (sup : AList String SupplyInfo) (bor : ALis
   | .marketBalance => .bal <$> specBalance cx env sup bor
   | .getSupply k => .sup <$> specGetSupply cx env sup k
   | .getBorrow k => .bor <$> specGetBorrow cx env bor k
-  | .maxBorrowAmount k => do
-      let cv ← specColl cx env sup
-      let bv ← specBorAmt cx env bor
-      let ml ← maxLtvOf cx env cv
-      match ml with
-      | .inf => .error .invalidOp
-      | .fin l =>
-        let v := cx.mul (cx.sub (cx.mul (dsum cx (vals cv)) l) (dsum cx (vals bv))) Gen.aaveMaxBorrowUi
-        let p ← env.priceOf k
-        .rat <$> divE cx v p
+  | .maxBorrowAmount k => .rat <$> specMaxBorrowAmount cx env sup bor k
 
 /-- `set_market_status`: all five caches are reset and `has_update` cleared (the new `Env` is the caller's) -/
 def newBar : M Unit := M.modify (fun s =>
